@@ -337,9 +337,25 @@ class Tracer:
                 return False
             reader.feed_eof()
         elif what == "reset":
-            if reader.exception() is not None:
+            # as a real transport does it: connection_lost(exc) is always scheduled with call_soon, so it reaches the
+            # reader after the callbacks that are already queued (a reader woken by data in this same loop turn runs
+            # first). Delivered in the same turn as a feed_data, StreamReader.set_exception would find no waiter and a
+            # pending readexactly() would never see the exception — a situation asyncio's transports cannot produce.
+            if reader.exception() is not None or getattr(reader, "_nv_reset_pending", False):
                 return False
-            reader.set_exception(ConnectionResetError("fake: connection reset by peer"))
+            reader._nv_reset_pending = True
+
+            def deliver():
+                if self.client is None or reader is not self.client.reader or reader.exception() is not None:
+                    return
+                reader.set_exception(ConnectionResetError("fake: connection reset by peer"))
+                b = {"kind": "env", "what": "reset", "n": 0, "snap": self.snap(), "vt": self.loop.time(), "ev": [], "end": "env"}
+                self.blocks.append(b)
+                self._count(b)
+            # two hops: this may run inside a task step that is just suspending on the reader (its wake-up is only
+            # registered when the step returns), and a transport reports the loss in a later loop iteration than data
+            self.loop.call_soon(lambda: self.loop.call_soon(deliver))
+            return True
         b = {"kind": "env", "what": what, "n": n, "snap": self.snap(), "vt": self.loop.time(), "ev": [], "end": "env"}
         self.blocks.append(b)
         self._count(b)
@@ -875,6 +891,17 @@ async def _session(spec, tr, gw, obs, loop):
     def cur_writer():
         return client.writer
 
+    feeds, readers_seen = [], []
+    obs["feeds"] = feeds
+
+    def fed(name, k, accepted):
+        """what the peer put on which connection: [virtual time, op, complete deliverable frames, connection number]"""
+        if accepted:
+            r = cur_reader()
+            if not any(r is x for x in readers_seen):
+                readers_seen.append(r)
+            feeds.append([loop.time(), name, k, [i for i, x in enumerate(readers_seen) if x is r][0]])
+
     def do(op):
         """one user / peer action; synchronous (tasks are created, not awaited)"""
         name = op[0]
@@ -898,17 +925,17 @@ async def _session(spec, tr, gw, obs, loop):
             user_tasks.append(loop.create_task(client.send(msg)))
         elif name == "frames":
             data = b"".join(frame(cname, i) for i in range(int(op[1])))
-            tr.env("feed", cur_reader(), len(data), data)
+            fed(name, int(op[1]), tr.env("feed", cur_reader(), len(data), data))
         elif name == "badframes":   # well-framed frames whose decoding raises
             data = b"".join(bad_frame(cname, i) for i in range(int(op[1])))
-            tr.env("feed", cur_reader(), len(data), data)
+            fed(name, 0, tr.env("feed", cur_reader(), len(data), data))
         elif name == "feed":
             data = bytes.fromhex(op[1])
-            tr.env("feed", cur_reader(), len(data), data)
+            fed(name, 0, tr.env("feed", cur_reader(), len(data), data))
         elif name == "partial":     # first half of a frame (mid-packet position)
             f = frame(cname, 3)
             data = f[: max(1, len(f) // 2)]
-            tr.env("feed", cur_reader(), len(data), data)
+            fed(name, 0, tr.env("feed", cur_reader(), len(data), data))
         elif name == "eof":
             tr.env("eof", cur_reader())
         elif name == "reset":
@@ -1120,6 +1147,10 @@ FAULTS = {"eof": [["eof"]], "reset": [["reset"]], "writeerr": [["wmode", "fail"]
           "garbage_eof": [["feed", GARBAGE], ["eof"]], "refuse3_eof": [["refuse_next", 3], ["eof"]],
           "refuse7_reset": [["refuse_next", 7], ["reset"]], "drainerr": [["wmode", "suspfail"], ["send"]],
           "sorry": [["feed", b"Sorry,Limited".hex()]],
+          # the link breaks in the middle of a frame: what was buffered of it must not damage the first frame of the next link
+          "partial_eof": [["partial"], ["eof"]], "partial_reset": [["partial"], ["reset"]],
+          # (text clients) more than the 64 KiB stream limit without a line end, then ordinary traffic
+          "overlong": [["feed", (b"\x41\x30\x7a" * 23000).hex()]],
           "undecodable_eof": [["badframes", 4], ["frames", 1], ["badframes", 2], ["eof"]]}
 
 
